@@ -43,7 +43,7 @@ def run_steps(workdir, nsteps, threads, restart):
             "--number-of-steps", str(nsteps)]
     if restart:
         args += ["--restart", "."]
-    return cmirun.run(workdir, args, {"CMI_VERIF_STEP": "1"}, timeout=120)
+    return cmirun.run(workdir, args, {"CMI_VERIF_STEP": "1"}, timeout=600, cpu_limit=120)
 
 
 def check_restart(case, workdir):
@@ -66,6 +66,9 @@ def check_restart(case, workdir):
     if any(case["periodic"]):
         r.label("periodic")
     ra = run_steps(a, N, 1, False)
+    if ra["timeout"] and not ra["cpu_exceeded"]:
+        r.inconclusive = "wall-clock limit hit without exhausting the CPU budget"
+        return r
     if ra["timeout"] or ra["rc"] != 0:
         # the uninterrupted run itself must work for the comparison to mean anything
         return r.fail("uninterrupted run failed: rc=%s timeout=%s: %s" % (
@@ -77,6 +80,9 @@ def check_restart(case, workdir):
     for k in stops + [N]:
         rb = run_steps(b, k, 1, not first)
         first = False
+        if rb["timeout"] and not rb["cpu_exceeded"]:
+            r.inconclusive = "wall-clock limit hit without exhausting the CPU budget"
+            return r
         if rb["timeout"] or rb["rc"] != 0:
             return r.fail("run stopped/restarted at %s failed (target step %d): rc=%s timeout=%s: %s" % (
                 stops, k, rb["rc"], rb["timeout"], rb["out"][-400:].replace("\n", " | ")))
@@ -189,4 +195,4 @@ SUBS = [
 ]
 
 if __name__ == "__main__":
-    sys.exit(pbt.main("C09", __file__, SUBS))
+    sys.exit(pbt.main(os.environ.get("VERIF_PID", "C09"), __file__, SUBS))
